@@ -143,10 +143,17 @@ static GROUP_COUNTER: std::sync::atomic::AtomicU64 = std::sync::atomic::AtomicU6
 impl SimNode {
     pub fn new(id: u32, seed: u64, base_cfg: RaftNodeConfig, net: Net, oracle: OracleRef) -> SimNode {
         let sm_obs = Arc::new(Mutex::new(SmObserver { seed, oracle: Some(oracle.clone()), ..Default::default() }));
+        let disk = SimDisk::new(id, seed);
+        let sm_img: SmImageRef = Arc::new(Mutex::new(SmImage::default()));
+        {
+            let mut d = disk.lock().unwrap();
+            d.oracle = Some(oracle.clone());
+            d.sm_img = Some(sm_img.clone());
+        }
         SimNode {
             id,
-            disk: SimDisk::new(id, seed),
-            sm_img: Arc::new(Mutex::new(SmImage::default())),
+            disk,
+            sm_img,
             sm_obs,
             cur: None,
             inc_counter: 0,
